@@ -7,8 +7,21 @@ Lean model and judged by the oracle, (iii) wide distributions of 9..11 binary va
 oracle alone.  In every case the factors are used twice: after joint_from_factors they are observed again (unchanged,
 still a factorisation of the joint) and recombined a second time.  All expected numbers are fibre sums of the table
 read from the source distribution (which is compared with the specified table first).
+
+The factors are also observed in their other representations (`other_representations`): copypmf of the marginal and of
+every conditional (modes asis / dense / sparse, target base None / linear / a log base) must hold the same
+probabilities outcome by outcome; cdist_array of the conditionals must be those rows, and P(c_i) * row_i the joint, in
+every base; joint_from_factors must reproduce the joint with strict=False, from a dense copy of the marginal (stored
+zero-probability conditioning outcomes: the list of conditionals is shorter than the marginal) and from
+d.marginal(crvs) of the source (when variables were dropped its mask is not complementary: strict=False, conditioning
+variables first).  Not judged: a *log-base* marginal longer than the list of conditionals that has a positive
+conditioning probability <= 1e-8 (joint_from_factors makes such a marginal sparse in the linear domain, which drops
+that outcome, and raises 'len(mdist) != len(cdists)': null-tolerance class of DESIGN 11); cdist_array in modes
+asis / sparse when the conditionals store different numbers of outcomes (no 2D array exists).
 """
 import json
+import math
+import random
 from fractions import Fraction
 
 import core
@@ -158,6 +171,99 @@ def wide_case(rng):
     return c, crvs, rvs, shape
 
 
+# ----------------------------------------------------------------------- the factors in another base / as an array
+# Targets of `copypmf` / `cdist_array` (None = keep the base of the distribution).
+TARGET_BASES = [None] + list(gen.BASES)
+MODES = ('asis', 'dense', 'sparse')
+
+
+def more_options(case):
+    """Options of the additional uses of the factors.  They are drawn from a generator seeded by the case itself, so
+    the stream of cases of a seed is the same as before these options existed."""
+    g = random.Random(int(core.case_key(case)[:12], 16))
+    k = 2 if case.get('family') == 'wide' else 3
+    return {'bases': g.sample(TARGET_BASES, k)}
+
+
+def conv_value(v, old, new):
+    """The float which represents in base `new` the probability that the stored float `v` represents in base `old`."""
+    v = float(v)
+    if new is None or new == old:
+        return v
+    lin = gen.lin_of(v, old)
+    if new == 'linear':
+        return lin
+    bn = gen.base_num(new)
+    if lin == 0:
+        return -math.inf if bn > 1 else math.inf
+    if math.isinf(lin) or math.isnan(lin):
+        return math.nan
+    if old == 'linear':
+        return math.log(v) / math.log(bn)
+    return v * math.log(gen.base_num(old)) / math.log(bn)
+
+
+def repr_agrees(got, want, base):
+    """Stored float `got` against the expected representation `want` in `base` (rtol 1e-9 in the linear domain)."""
+    got = float(got)
+    if math.isnan(got) or math.isnan(want):
+        return False
+    if math.isinf(got) or math.isinf(want):
+        return got == want
+    if base == 'linear':
+        return abs(got - want) <= 1e-12 + 1e-9 * abs(want)
+    return abs(got - want) <= 1e-9 * max(1.0, abs(want))
+
+
+def null_value(v, base):
+    """Is the stored float a null probability for the library (C01's tolerance: linear values up to 1e-8, the
+    infinite zero of a log base)?  None when the value is too close to the threshold to say."""
+    if base == 'linear':
+        if 0.99e-8 < v < 1.01e-8:
+            return None
+        return v <= 1e-8
+    return gen.lin_of(v, base) == 0
+
+
+def expected_copy(x, mode):
+    """Outcomes-in-order values of `copypmf(x, mode=mode)` in the base of x, read through the public interface:
+    stored values as they are / the value of every member of the sample space / the non-null stored values."""
+    base = x.get_base()
+    if mode == 'asis':
+        return [float(v) for v in x.pmf]
+    if mode == 'dense':
+        return [float(x[o]) for o in x.sample_space()]
+    flags = [null_value(float(v), base) for v in x.pmf]
+    if any(f is None for f in flags):
+        return None
+    return [float(v) for v, f in zip(x.pmf, flags) if not f]
+
+
+def copies_fail(dit, x, label, targets):
+    """copypmf(x, base, mode) for every mode and target base: the same probabilities, outcome by outcome, in the
+    requested base.  First failing clause or None."""
+    old = x.get_base()
+    for mode in MODES:
+        want0 = expected_copy(x, mode)
+        if want0 is None:
+            continue
+        for b in targets:
+            eff = old if b is None else b
+            try:
+                got = dit.copypmf(x, base=b, mode=mode)
+            except Exception as e:  # noqa
+                return 'copypmf(%s, base=%r, mode=%r) raised %s: %s' % (label, b, mode, type(e).__name__, str(e)[:120])
+            got = [float(v) for v in got]
+            want = [conv_value(v, old, b) for v in want0]
+            if len(got) != len(want):
+                return 'copypmf(%s, base=%r, mode=%r) has %d entries, %d expected' % (label, b, mode, len(got), len(want))
+            for k, (a, w) in enumerate(zip(got, want)):
+                if not repr_agrees(a, w, eff):
+                    return 'copypmf(%s, base=%r, mode=%r)[%d] = %r, but the stored %r (base %r) is %r in base %r' % (
+                        label, b, mode, k, a, want0[k], old, w, eff)
+    return None
+
+
 class C03(object):
     id = 'C03'
     rule = ("joint distributions of 2..4 variables (zero-probability conditioning values when dense/untrimmed, rows with "
@@ -168,7 +274,12 @@ class C03(object):
             "floats, labels, numerals as text; numeric order != text order); + wide distributions of 9..11 binary "
             "variables (prefix / few-variable / random selections, oracle only); every case: the factors are used "
             "again after joint_from_factors (unchanged, still a factorisation, second recombination reproduces the "
-            "joint)")
+            "joint); every case: the factors in other representations - copypmf of the marginal and of every conditional "
+            "in modes asis / dense / sparse and 2..3 target bases (None, linear, 5 log bases; options drawn from the case "
+            "itself), cdist_array of the conditionals (dense always, asis / sparse when the rows have one length) with the "
+            "chain rule evaluated on the array; joint_from_factors with strict=False, with the marginal made dense (zero "
+            "conditioning outcomes stored) and with d.marginal(crvs) of the source (strict=True when nothing is dropped, "
+            "else strict=False: conditioning variables first)")
     tolerances = {'values': 'rtol 1e-9 in the linear domain (a division is involved)'}
     exhaustive = {}
 
@@ -196,6 +307,7 @@ class C03(object):
             c['rvs'] = rvs
             c['byname'] = bool(c['names']) and rng.random() < 0.5
             c['extract'] = rng.random() < 0.3
+            c['more'] = more_options(c)
             yield c
         # heterogeneous alphabets: each variable has its own kind of symbols
         for _ in range(90 if tier == 'quick' else 9000):
@@ -208,6 +320,7 @@ class C03(object):
             c['rvs'] = rvs
             c['byname'] = bool(c['names']) and rng.random() < 0.5
             c['extract'] = rng.random() < 0.2
+            c['more'] = more_options(c)
             yield c
         # wide distributions (judged by the oracle alone)
         for _ in range(40 if tier == 'quick' else 1500):
@@ -220,6 +333,7 @@ class C03(object):
             c['shape'] = shape
             c['byname'] = bool(c['names']) and rng.random() < 0.5
             c['extract'] = rng.random() < 0.15
+            c['more'] = more_options(c)
             yield c
 
     def shrink(self, case):
@@ -462,8 +576,152 @@ class C03(object):
                     except Exception as e:  # noqa
                         fails = 'second joint_from_factors on the same factors raised %s: %s' % (type(e).__name__,
                                                                                                   str(e)[:150])
+        # ---------------- the same factors in another representation (base, dense / sparse, stacked as an array)
+        if not fails:
+            fails = self.other_representations(dit, r, case, d, cdist, conds, oc, ocs, joint, rows,
+                                               dict(crvs=crvs, idx=idx, scal_c=scal_c, scal_r=scal_r, src=src,
+                                                    nm=nm, rv_mode=rv_mode))
         r.oracle_fail = fails
         return r
+
+    def other_representations(self, dit, r, case, d, cdist, conds, oc, ocs, joint, rows, ctx):
+        """The statement holds "in linear or log base", for sparse and dense representations: the factors copied
+        into another base / mode (copypmf), stacked (cdist_array), and recombined from another presentation of the
+        marginal.  Returns the first failing clause or None; sets r.site to the function that failed."""
+        from dit.cdisthelpers import cdist_array
+        base = case['base']
+        n = case['n']
+        names = case.get('names')
+        crvs, idx = ctx['crvs'], ctx['idx']
+        scal_c, scal_r = ctx['scal_c'], ctx['scal_r']
+        more = case.get('more') or {'bases': TARGET_BASES}
+        targets = list(more['bases'])
+        r.features += ['target-base=%s' % (b,) for b in targets]
+        stored_c = [tuple(o) for o, _ in oc['tab']]
+
+        # ---- copypmf: the same numbers in the requested base, for the marginal and for every conditional
+        msg = copies_fail(dit, cdist, 'marginal', targets)
+        for i, x in enumerate(conds):
+            if msg:
+                break
+            msg = copies_fail(dit, x, 'conditional #%d' % i, targets)
+        if msg:
+            r.site = 'copypmf'
+            return msg
+
+        # ---- cdist_array: row i is P(.|c_i); P(c_i) * row equals the joint, in every base
+        if conds:
+            for mode in MODES:
+                want0 = [expected_copy(x, mode) for x in conds]
+                if any(w is None for w in want0):
+                    continue
+                if len(set(len(w) for w in want0)) != 1:
+                    # sparse conditionals with different numbers of stored outcomes do not form a 2D array
+                    r.features.append('ragged-%s' % mode)
+                    continue
+                for b in targets:
+                    eff = base if b is None else b
+                    try:
+                        arr = cdist_array(conds, base=b, mode=mode)
+                        arr = [[float(v) for v in row] for row in arr]
+                    except Exception as e:  # noqa
+                        r.site = 'cdist_array'
+                        return 'cdist_array(conds, base=%r, mode=%r) raised %s: %s' % (b, mode, type(e).__name__,
+                                                                                       str(e)[:120])
+                    if len(arr) != len(conds) or any(len(row) != len(w) for row, w in zip(arr, want0)):
+                        r.site = 'cdist_array'
+                        return 'cdist_array(conds, base=%r, mode=%r) has shape %s, expected %d x %d' % (
+                            b, mode, [len(row) for row in arr], len(conds), len(want0[0]))
+                    for i, (row, w0) in enumerate(zip(arr, want0)):
+                        for k, (a, v) in enumerate(zip(row, w0)):
+                            w = conv_value(v, base, b)
+                            if not repr_agrees(a, w, eff):
+                                r.site = 'cdist_array'
+                                return 'cdist_array(conds, base=%r, mode=%r)[%d][%d] = %r, the conditional stores %r ' \
+                                       '(base %r), i.e. %r in base %r' % (b, mode, i, k, a, v, base, w, eff)
+                        if mode == 'dense':
+                            pc = gen.lin_of(oc['tab'][i][1], base)
+                            for x, a in zip(ocs[i]['space'], row):
+                                wantj = joint.get((stored_c[i], tuple(x)), 0.0)
+                                if not abs(pc * gen.lin_of(a, eff) - wantj) <= 1e-9:
+                                    r.site = 'cdist_array'
+                                    return 'P(c=%s) * cdist_array(conds, base=%r, mode=dense)[%d][r=%s] = %r but ' \
+                                           'P(c,r) = %r' % (list(stored_c[i]), b, i, x, pc * gen.lin_of(a, eff), wantj)
+            r.features.append('stacked')
+        if not same_obs(obs_dist(cdist, case, crvs, scal_c), oc) or \
+                not same_obs([obs_dist(x, case, idx, scal_r) for x in conds], ocs):
+            r.site = 'copypmf'
+            return 'copypmf / cdist_array changed a distribution they were given'
+
+        # ---- joint_from_factors from other presentations of the same marginal
+        if case['extract'] or not conds:
+            return None
+        union = sorted(crvs + idx)
+        marg = {}
+        for o, p in rows:
+            c = tuple(o[i] for i in crvs)
+            marg[c] = marg.get(c, 0.0) + p
+
+        def recombine(label, mdist, strict, positions):
+            """joint_from_factors(mdist, conds, strict) is the joint over `positions` (fibre sums of the source)."""
+            fibre = {}
+            for o, p in rows:
+                u = tuple(o[i] for i in positions)
+                fibre[u] = fibre.get(u, 0.0) + p
+            before = obs_dist(mdist, case, crvs)
+            try:
+                j = dit.joint_from_factors(mdist, conds, strict=strict)
+                oj = obs_dist(j, case, positions)
+            except Exception as e:  # noqa
+                return 'joint_from_factors(%s) raised %s: %s' % (label, type(e).__name__, str(e)[:150])
+            got = {tuple(o): gen.lin_of(v, j.get_base()) for o, v in zip(oj['space'], oj['lookups'])}
+            for o in list(fibre) + list(got):
+                if not abs(got.get(o, 0.0) - fibre.get(o, 0.0)) <= 1e-9:
+                    return 'joint_from_factors(%s) gives P(%s) = %r over the variables %s, the fibre sum of the joint is ' \
+                           '%r' % (label, list(o), got.get(o, 0.0), list(positions), fibre.get(o, 0.0))
+            if names and list(j.get_rv_names() or []) != [names[i] for i in positions]:
+                return 'joint_from_factors(%s) names %s, expected %s' % (label, j.get_rv_names(),
+                                                                        [names[i] for i in positions])
+            if not same_obs(obs_dist(mdist, case, crvs), before):
+                return 'joint_from_factors(%s) changed the marginal it was given' % label
+            if not same_obs([obs_dist(x, case, idx, scal_r) for x in conds], ocs):
+                return 'joint_from_factors(%s) changed a conditional it was given' % label
+            return None
+
+        r.site = 'joint_from_factors'
+        # masks are complementary: strict or not, the variable order is restored
+        msg = recombine('cdist, conds, strict=False', cdist, False, union)
+        if msg:
+            return msg
+        # A marginal that stores its zero-probability outcomes is longer than the list of conditionals and is made sparse
+        # in the linear domain by joint_from_factors.  Not judged (null-tolerance class, DESIGN 11): a log-base marginal
+        # with a positive conditioning probability <= 1e-8, which that step drops.
+        subnull = base != 'linear' and any(0 < p <= 1.01e-8 for p in marg.values())
+        try:
+            dense = cdist.copy()
+            dense.make_dense()
+            whole = d.marginal(ctx['nm'](case['crvs']), rv_mode=ctx['rv_mode'])
+        except Exception as e:  # noqa
+            return 'presenting the marginal again raised %s: %s' % (type(e).__name__, str(e)[:150])
+        for label, m in (('dense copy of cdist', dense), ('d.marginal(crvs)', whole)):
+            longer = len(m) > len(conds)
+            if longer and subnull:
+                r.features.append('longer-marginal-subnull-not-judged')
+                continue
+            r.features.append('marginal-longer=%s' % longer)
+            if m is dense or len(union) == n:
+                msg = recombine('%s, conds, strict=True' % label, m, True, union)
+            else:
+                # variables were dropped: the mask of d.marginal(crvs) speaks about all n variables, the masks are not
+                # complementary, and strict=False puts the conditioning variables first
+                r.features.append('masks-incompatible')
+                msg = recombine('%s, conds, strict=False' % label, m, False, crvs + idx)
+            if msg:
+                return msg
+        if not same_obs(obs_dist(d, case, range(n)), ctx['src']):
+            return 'joint_from_factors changed the source distribution'
+        r.site = 'Distribution.condition_on'
+        return None
 
 
 PROP = C03()
